@@ -54,6 +54,23 @@ PROPS["C03"] = {
     "level_text": "The real heartbeat loop runs symbolically under a symbolic clock: the instant of the fault, every latency and every per-operation failure mode are solver variables, the goroutine schedule is explored exhaustively at store-operation legs, and the two time bounds of the property are linear-arithmetic obligations over the clock decided by z3 on every path.",
     "level_note": "Bounded to the listed timing configurations and 7 store operations; reductions R1/R2 of DESIGN.md section 4 (atomic segments, zero-time computation) apply.",
 }
+PROPS["C12"] = {
+    "groups": [{"run": "^vpH_C12_T_"}],
+    "bounds": {"quick": "one real leader (heartbeatLoop, handleHealthCheckFailure, becomeFollower) with a scripted checker whose verdict at every tick is an explorer choice; threshold MaxConsecutiveFailures in {0 (default 3),1,2,3,4}, threshold+2 ticks; two-term histories (term 1 of threshold-1 ticks ended by Stop, restart, term 2 of threshold+1 ticks) for thresholds 2 and 3; H=1s; the context handed to every Check must expire within 100 ms"},
+    "outside": "thresholds above 4; more than two terms; checkers that block (slow results)",
+    "assumptions": ["record expiry is switched off in these harnesses (unhealthy ticks skip the refresh by design)"],
+    "level_text": "The real heartbeat loop runs against every healthy/unhealthy verdict sequence within the bound (exhaustive over sequences, thresholds and schedules); an oracle computed independently from the verdict log decides, on every path, that demotion by the health path happens exactly at the N-th consecutive unhealthy tick of the current term.",
+    "level_note": "Exhaustive over verdict sequences up to threshold+2 ticks; data is concrete here (the solver decides clock-related branches only); reductions R1/R2.",
+}
+PROPS["C07"] = {
+    "groups": [{"run": "^vpH_C07_T_(leftover|stale_events)$"}, {"run": "^vpH_C07_T_leftover_symrand$", "thorough_only": True}],
+    "bounds": {"quick": "one real election started next to a live foreign record (follower with watcher, 500ms periodic check and first acquisition round running); fault-free store with immediate answers; the foreign owner's shutdown (record deleted) at a symbolic instant in [0,600ms], i.e. at any point of the follower's first acquisition round (jitter/backoff draws fixed at rand=0.5); horizon 2.5 heartbeats after the election (H=1s). Stale notifications: after the leader has settled one late event is injected into its watch channel: an old event naming the previous owner, a duplicate of its own latest write, or the previous owner's old deletion marker",
+               "thorough": "as quick with every jitter/backoff draw symbolic"},
+    "outside": "store latencies above zero in these scenarios; more than one stale notification; other instances racing for the vacancy (their failed Creates leave the store unchanged; the environment here only removes the old record)",
+    "assumptions": [],
+    "level_text": "The real follower-side code (watchLoop, handleWatchEvent, checkKeyAndReelect, attemptAcquireWithRetry) and leader-side code run together symbolically; the vacancy instant is a solver variable, so one exploration covers every placement of the vacancy relative to the retries of the leftover acquisition round; a monitor inside the Metrics.SetIsLeader callback observes every change of the leadership flag itself.",
+    "level_note": "Reductions R1/R2; scheduler decisions are offered whenever an enabled goroutine is parked at a store-operation leg, goroutines woken by timers or channels otherwise run in creation order.",
+}
 PROPS["S00"] = {"groups": [{"run": "^vpH_S00_"}], "level_text": "engine smoke test", "level_note": ""}
 
 NOT_APPLICABLE = {}
